@@ -32,6 +32,11 @@ type Step struct {
 	Kind    string `json:"kind"`
 	N       int    `json:"n,omitempty"`
 	Advance int    `json:"advance,omitempty"`
+	// Hold (recv): if this piece completes the torrent, the dispatcher's completion
+	// notice is left pending instead of being applied at once; a later "applyc" step
+	// (or the end of the case) applies it. Ticks may therefore see a torrent that is
+	// complete while its local requester has not been notified yet.
+	Hold bool `json:"hold,omitempty"`
 }
 
 type Case struct {
@@ -51,7 +56,7 @@ func gen(t *rapid.T) Case {
 	c.Seeding = rapid.Bool().Draw(t, "seeding")
 	c.SeederTTI = rapid.IntRange(2, 8).Draw(t, "seeder")
 	c.LeecherTTI = rapid.IntRange(2, 8).Draw(t, "leecher")
-	kinds := []string{"serve", "serve", "recv", "recv", "advance", "advance", "advance", "tick", "tick", "tick", "download"}
+	kinds := []string{"serve", "serve", "recv", "recv", "recv", "advance", "advance", "advance", "tick", "tick", "tick", "download", "applyc"}
 	n := rapid.IntRange(3, 16).Draw(t, "nsteps")
 	for i := 0; i < n; i++ {
 		s := Step{Kind: rapid.SampledFrom(kinds).Draw(t, "kind")}
@@ -60,6 +65,8 @@ func gen(t *rapid.T) Case {
 			s.N = rapid.IntRange(0, 11).Draw(t, "n")
 		case "advance":
 			s.Advance = rapid.IntRange(0, 5).Draw(t, "adv")
+		case "recv":
+			s.Hold = rapid.Bool().Draw(t, "hold")
 		}
 		c.Steps = append(c.Steps, s)
 	}
@@ -169,8 +176,11 @@ func run(c Case) pbt.Verdict {
 				note("%d: received a piece at %s (complete=%v)", si, h.Clock.Now().Format("15:04:05"), d.Complete())
 				if d.Complete() {
 					everComplete = true
+					if s.Hold {
+						classes["completion-notice-held"] = true
+					}
 					for _, e := range h.VH.Pending() {
-						if e.Kind == "dispatcherCompleteEvent" {
+						if e.Kind == "dispatcherCompleteEvent" && !s.Hold {
 							h.ApplyID(e)
 						}
 					}
@@ -179,6 +189,18 @@ func run(c Case) pbt.Verdict {
 							h.ApplyID(e)
 						}
 					}
+				}
+			}
+		case "applyc":
+			for _, e := range h.VH.Pending() {
+				if e.Kind == "dispatcherCompleteEvent" {
+					h.ApplyID(e)
+					note("%d: completion notice applied", si)
+				}
+			}
+			for _, e := range h.VH.Pending() {
+				if e.Kind == "announceResultEvent" {
+					h.ApplyID(e)
 				}
 			}
 		case "advance":
@@ -255,7 +277,7 @@ func run(c Case) pbt.Verdict {
 func TestProp(t *testing.T) {
 	pbt.Main(t, pbt.Spec{
 		ID: "C18",
-		Rule: "rapid generates timelines over one agent scheduler (owned event loop, mock clock): a blob that is either already cached (seeding) or being downloaded (leeching), seeder/leecher idle limits 2-8 s, steps from {fake peer requests a piece and reads+closes the payload, fake peer delivers a missing piece, clock advance 0-5 s, preemption tick, another Download}. Model from the statement: last-served and last-received start at torrent creation; a tick drops the torrent iff complete and now-lastServed >= seeder limit, or in progress and now-lastReceived >= leecher limit; LastReadTime/LastWriteTime must equal the model after every step; a dropped in-progress torrent leaves no archive entry or partial file; a completed blob stays byte-identical in the cache whatever is dropped. non-trivial = a tick is judged after at least one piece was served or received; distinct by case hash",
+		Rule: "rapid generates timelines over one agent scheduler (owned event loop, mock clock): a blob that is either already cached (seeding) or being downloaded (leeching), seeder/leecher idle limits 2-8 s, steps from {fake peer requests a piece and reads+closes the payload, fake peer delivers a missing piece, clock advance 0-5 s, preemption tick, another Download, apply a held completion notice}; a piece that completes the torrent may leave the completion notice pending (held), so ticks can hit a torrent that is complete while its requester is still waiting. Model from the statement: last-served and last-received start at torrent creation; a tick drops the torrent iff complete and now-lastServed >= seeder limit, or in progress and now-lastReceived >= leecher limit; LastReadTime/LastWriteTime must equal the model after every step; a dropped in-progress torrent leaves no archive entry or partial file; a completed blob stays byte-identical in the cache whatever is dropped. non-trivial = a tick is judged after at least one piece was served or received; distinct by case hash",
 		Assumptions: []string{
 			"piece activity is produced through a fake peer attached to the dispatcher; it reads and closes served payloads as conn.Conn does",
 			"ticks are applied by the harness (the real ticker loop is not started); the clock only moves when the case says so",
